@@ -279,8 +279,9 @@ def run_check(pid, tier, seed=0, workers=None, only_job=None):
     wall = time.perf_counter() - t_start
     evidence = build_evidence(pid, tier, seed, h, jobs, per_job, total, wall, complete, violations,
                               known_reproduced, nonrepro, errors, capped, workers)
-    os.makedirs(os.path.join(VERIF, "evidence"), exist_ok=True)
-    with open(os.path.join(VERIF, "evidence", "%s.json" % pid), "w") as f:
+    evdir = os.environ.get("VERIF_EVIDENCE_DIR") or os.path.join(VERIF, "evidence")
+    os.makedirs(evdir, exist_ok=True)
+    with open(os.path.join(evdir, "%s.json" % pid), "w") as f:
         json.dump(evidence, f, indent=1, default=str)
 
     print("%s tier=%s jobs=%d paths=%d cut=%d forks=%d queries=%d solver_s=%.1f asserts=%d proved=%d wall=%.1fs complete=%s"
